@@ -6,26 +6,44 @@ Import ListNotations.
 Local Open Scope string_scope.
 
 (* ------------------------------------------------------------ explicit panic( calls *)
-(* every explicit panic( of the anchored compiler/printer files is either a Panic site of the model
-   or is listed here with the reason it lies outside the modelled paths; a new panic( in Go breaks
-   [panic_sites_agree] *)
+(* A CENSUS, not a reachability argument: every explicit panic( call of the scanned packages (gen/PanicGen.v)
+   is listed; only the two ModelSite rows have Coq content behind them. A new panic( in Go breaks
+   [panic_sites_agree]. Implicit panics (nil dereference, failed type assertion, index out of range) are not
+   counted anywhere. *)
 Inductive panic_class :=
-| ModelSite (site : string)          (* a Panic outcome of model/CmpbFields.v, shown unreachable by C07_compile_field_total *)
-| Outside (why : string).            (* printer-side / guarded: explored by the declaration and print streams under recover() *)
+| ModelSite (site : string)    (* a Panic outcome of model/CmpbFields.v: C07_compile_field_total shows it unreachable IN THE MODEL *)
+| Explored (why : string).     (* NOT modelled: no theorem; reached, if at all, only under recover() in the correspondence / oracle
+                                  streams. The text is a review note, not a proof. *)
 
 Definition model_panic_sites : list ((string * string * string * string) * panic_class) :=
   [ (("j5convert", "builders.go", "fileContext.ensureImport", """empty alias"""),
       ModelSite "ensureImport: empty alias");
     (("j5convert", "builders.go", "fileContext.ensureImport", """invalid import path "" + importPath"),
       ModelSite "ensureImport: invalid import path");
+    (("j5reflect", "property_set.go", "propSet.buildValue", "fmt.Sprintf(""Reflection Bug: field %s is not valid"", walkField.FullName())"),
+      Explored "lib/j5reflect, used by the BCL walker to write into SourceFile: C18/C06 territory; malformed + semantic streams");
+    (("j5reflect", "property_set.go", "copyReflect", "fmt.Sprintf(""CopyReflect: field %s not found in %s"", fd.FullName(), b.Descriptor().FullName())"),
+      Explored "lib/j5reflect copy between equal message types");
+    (("j5reflect", "protoval.go", "newProtoPair", """msg is nil/invalid"""),
+      Explored "lib/j5reflect constructor guard");
+    (("j5reflect", "protoval.go", "newProtoPair", """field is nil"""),
+      Explored "lib/j5reflect constructor guard");
+    (("j5reflect", "type_any.go", "anyFieldFactory.buildField", "fmt.Sprintf(""unsupported Any type %s"", valueType)"),
+      Explored "lib/j5reflect: an Any field whose message is neither j5 Any nor google Any");
+    (("j5reflect", "type_array.go", "newLeafArrayField", """list value is nil for leaf"""),
+      Explored "lib/j5reflect array factory guard");
     (("optionreflect", "walk.go", "walkOptionMap", """map value is message, not supported"""),
-      Outside "printer: only for an option field of type map<_, message>; the only map-valued option the converter emits is (j5.ext.v1.enum_value).info : map<string,string>");
+      Explored "printer: an option field of type map<_, message>; the only map-valued option the converter emits is (j5.ext.v1.enum_value).info : map<string,string>; every printed file goes through safePrint");
     (("optionreflect", "walk.go", "walkOptionScalar", """unexpected scalar"""),
-      Outside "printer: marshalSingular covers every scalar kind; message/group kinds are dispatched to walkOptionMessage before");
+      Explored "printer: marshalSingular covers every scalar kind; message/group kinds are dispatched to walkOptionMessage before");
+    (("parser", "fmt.go", "fmter.diffFile", "fmt.Sprintf(""FMT unknown statement %T"", stmt)"),
+      Explored "formatter, not on the compile path (C09/C19)");
     (("protoprint", "options.go", "optionFullName", "err.Error()"),
-      Outside "printer: contextRefName has no error return path");
+      Explored "printer: contextRefName has no error return path");
     (("protoprint", "options.go", "parseOption", "fmt.Sprintf(""unexpected type %v"", root.FieldType)"),
-      Outside "printer: WalkOptionField returns one of the three FieldType constants") ].
+      Explored "printer: WalkOptionField returns one of the three FieldType constants");
+    (("walker", "walk_context.go", "walkContext.WrapErr", """WrapErr called with nil error"""),
+      Explored "BCL walker (C07 anchor file, not modelled): callers pass non-nil errors; malformed + semantic streams") ].
 
 Definition pkey := (string * string * string * string)%type.
 Definition pkey_eqb (a b : pkey) : bool :=
@@ -36,4 +54,22 @@ Definition pkeys_subset (a b : list pkey) : bool := forallb (fun k => existsb (p
 Definition panic_sites_same_set : bool :=
   pkeys_subset (map fst model_panic_sites) PanicGen.sites && pkeys_subset PanicGen.sites (map fst model_panic_sites).
 Lemma panic_sites_agree : panic_sites_same_set = true.
+Proof. vm_compute. reflexivity. Qed.
+
+(* ------------------------------------------------------------ the unmodelled BCL walker: reviewed census *)
+From J5V.gen Require WalkerGen.
+From J5V.model Require Import CmpbWalker.
+(* every syntactic panic source go/types sees in internal/bcl/parse.go and internal/bcl/internal/walker/...
+   (gen/WalkerGen.v) has a review note in model/CmpbWalker.v and every note still has its row; the
+   functions the crash stream must execute exist.  A new index / dereference / panic( in the walker breaks
+   this lemma until it is reviewed; a reviewed function the stream stops executing breaks the CWalkCov case. *)
+Lemma walker_sites_agree : walker_sites_same_set = true.
+Proof. vm_compute. reflexivity. Qed.
+Lemma walker_required_funcs_exist : required_funcs_exist = true.
+Proof. vm_compute. reflexivity. Qed.
+(* the walker rows of the explicit-panic census are among the reviewed rows *)
+Lemma walker_panic_rows_reviewed :
+  forallb (fun r => match r with (p, f, fn, arg) =>
+     orb (negb (String.eqb p "walker")) (existsb (wkey_eqb (p, f, fn, "panic", arg)) (map fst walker_reviewed)) end)
+    PanicGen.sites = true.
 Proof. vm_compute. reflexivity. Qed.
